@@ -49,7 +49,7 @@ theorem luDecomp_correct {A : Mat K} {n : Nat} {a : Nat → Nat → K} (h : Mat.
       Mat.toMat n pe * Mat.toMat n a = Mat.toMat n (Mat.Lfn w) * Mat.Umat n n w ∧
       Matrix.det (Mat.toMat n pe) = (-1) ^ s.pivots ∧
       Matrix.det (Mat.Umat n n w) = (-1) ^ s.pivots * Matrix.det (Mat.toMat n a) := by
-  obtain ⟨s, w, pe, hs, hw, hpe, hdU, hdP, hLU⟩ := Mat.luDecomp_spec h
+  obtain ⟨s, w, pe, hs, hw, hpe, hdU, hdP, hLU⟩ := Mat.luDecomp_spec_det h
   exact ⟨s, w, pe, hs, hw, hpe, (Mat.LU_eq_PA hLU).symm, hdP, hdU⟩
 
 /-- (E) **`determinant()` computes the determinant**: on every well-formed square matrix —
